@@ -113,13 +113,34 @@ impl Fringe for CapFringe<'_> {
     fn len(&self) -> usize { self.inner.len() }
 }
 
+/// custom sub-problem rankings for the any-order engine (`seqorder`): the library lets the user hand any `SubProblemRanking` to
+/// the fringes; branch-and-bound with (or without) the threshold cache must reach the optimum in whatever order nodes are popped
+pub static ORDER_MODE: AtomicUsize = AtomicUsize::new(0);
+pub struct OrderRank { pub mode: usize }
+impl SubProblemRanking for OrderRank {
+    type State = i64;
+    fn compare(&self, a: &SubProblem<i64>, b: &SubProblem<i64>) -> std::cmp::Ordering {
+        let h = |x: &SubProblem<i64>| { let mut z = (*x.state as u64).wrapping_mul(0x9E3779B97F4A7C15) ^ ((x.depth as u64) << 17) ^ (x.value as u64).wrapping_mul(0xD1B54A32D192ED03); z ^= z >> 29; z.wrapping_mul(0xBF58476D1CE4E5B9) };
+        match self.mode {
+            1 => b.ub.cmp(&a.ub).then(b.value.cmp(&a.value)),                       // smallest bound first
+            2 => a.depth.cmp(&b.depth).then(a.ub.cmp(&b.ub)),                       // deepest first
+            3 => b.depth.cmp(&a.depth).then(a.value.cmp(&b.value)),                 // shallowest first
+            4 => a.value.cmp(&b.value).then(b.ub.cmp(&a.ub)),                       // largest value first
+            _ => h(a).cmp(&h(b)),                                                   // pseudo-random
+        }
+    }
+}
 pub fn run_seq_once(fam: &Fam, cfg: &SCfg, tape: bool) -> RunOut {
     TAPE_ON.with(|t| *t.borrow_mut() = tape);
     take_tape();
     let dom = new_dom(fam);
     let cutoff = CountCutoff { count: AtomicUsize::new(0), stop_at: cfg.stop_at };
     let w = cfg.w.build();
-    let inner: Box<dyn Fringe<State = i64> + Send + Sync + '_> = if cfg.nodup { Box::new(NoDupFringe::new(MaxUB::new(fam))) } else { Box::new(SimpleFringe::new(MaxUB::new(fam))) };
+    let om = ORDER_MODE.load(std::sync::atomic::Ordering::SeqCst);
+    let inner: Box<dyn Fringe<State = i64> + Send + Sync + '_> = match (om, cfg.nodup) {
+        (0, true) => Box::new(NoDupFringe::new(MaxUB::new(fam))), (0, false) => Box::new(SimpleFringe::new(MaxUB::new(fam))),
+        (m, true) => Box::new(NoDupFringe::new(OrderRank { mode: m })), (m, false) => Box::new(SimpleFringe::new(OrderRank { mode: m })),
+    };
     let mut fringe = CapFringe { inner: TapeFringe { inner }, pops: 0, cap: 50_000 };
     fn go<D: DecisionDiagram<State = i64> + Default, C: Cache<State = i64> + Default>(fam: &Fam, cfg: &SCfg, w: &(dyn WidthHeuristic<i64> + Send + Sync), dom: &dyn DominanceChecker<State = i64>, cutoff: &CountCutoff, fringe: &mut CapFringe) -> RunOut {
         let res = catch(|| {
@@ -190,6 +211,38 @@ pub fn pick_fam(rng: &mut Rng, long_arcs: bool, focus_cache: bool, focus_dom: bo
     }
     if long_arcs && rng.chance(1, 3) { return Fam::Knap(Knap::random_long(rng)); }
     if rng.chance(1, 5) && !long_arcs { Fam::Knap(Knap::random(rng)) } else { Fam::Table(TableDP::random(rng, long_arcs)) }
+}
+/// `seqorder`: the sequential solver with custom sub-problem rankings (any processing order); only the outcome is observed
+pub fn run_seqorder(a: &Args) {
+    let mut out = Out::new(&a.out, "seqorder");
+    if let Some(r) = &a.replay {
+        let parts: Vec<&str> = r.split('|').collect();
+        let (fam, _) = Fam::parse(&parts[0].split_whitespace().collect::<Vec<_>>());
+        let cfg = SCfg::parse(&parts[1..5]);
+        let mode: usize = parts[5].trim().parse().unwrap();
+        ORDER_MODE.store(mode, std::sync::atomic::Ordering::SeqCst);
+        let ro = run_seq_once(&fam, &cfg, false);
+        ORDER_MODE.store(0, std::sync::atomic::Ordering::SeqCst);
+        out.case_tagged(r, &out_tok(&ro), "replay");
+        out.finish(); return;
+    }
+    let mut rng = Rng::new(a.seed);
+    let ninst = if a.thorough { 12000 } else { 1200 };
+    for _ in 0..ninst {
+        let focus_cache = rng.chance(2, 3);
+        let fd = !focus_cache && rng.chance(1, 4);
+        let fam = pick_fam(&mut rng, false, focus_cache, fd);
+        let mut cfg = random_cfg(&fam, &mut rng, &[0, 1, 2]);
+        cfg.cache = rng.chance(3, 4);
+        if focus_cache { cfg.w = WE::F(*rng.pick(&[1usize, 1, 2])); }
+        let mode = rng.range(1, 5) as usize;
+        ORDER_MODE.store(mode, std::sync::atomic::Ordering::SeqCst);
+        let ro = run_seq_once(&fam, &cfg, false);
+        ORDER_MODE.store(0, std::sync::atomic::Ordering::SeqCst);
+        let tags = format!("{} order{} {}", ["lel", "frontier", "pooled"][cfg.kind], mode, if cfg.cache { "cache" } else { "nocache" });
+        out.case_tagged(&format!("{} | {} | {}", fam.tokens(), cfg.tokens(), mode), &out_tok(&ro), &tags);
+    }
+    out.finish();
 }
 pub fn run_seq(a: &Args) {
     let mut out = Out::new(&a.out, "seq");
